@@ -48,7 +48,7 @@ func c01Scenario(h http.Handler, kind int, integrity bool) {
 	key := "k" + vsym.String("key", 1)
 	vsym.Assume(key[1] != '/')
 	if kind == kindFsMulti || kind == kindFsSingle {
-		vsym.Assume(fsKeyOK(key)) // key domain of the fs backends
+		vsym.Assume(vsym.And(key[1] != '\\', key[1] != 0)) // key domain of the fs backends
 	}
 
 	// metadata: presence flags and values are free
